@@ -1587,11 +1587,33 @@ impl Transaction {
         // spent transaction slips must be spendable (in hashmap)
         //
         return if validate_against_utxo {
+            //
+            // outputs older than the genesis period are handled by the rebroadcast
+            // mechanism (or collected as fees) and can no longer be spent by users
+            //
+            if self.spends_expired_input(
+                blockchain.get_latest_block_id(),
+                blockchain.genesis_period,
+            ) {
+                error!("ERROR 582041: transaction spends an input that fell out of the genesis period");
+                return false;
+            }
             let inputs_validate = self.validate_against_utxoset(utxoset);
             inputs_validate
         } else {
             true
         };
+    }
+
+    /// true if a value-carrying input was created more than `genesis_period` blocks before the
+    /// block that would follow `latest_block_id`. rebroadcast transactions are exempt: handling
+    /// exactly those outputs is their purpose.
+    pub fn spends_expired_input(&self, latest_block_id: u64, genesis_period: u64) -> bool {
+        self.transaction_type != TransactionType::ATR
+            && self
+                .from
+                .iter()
+                .any(|slip| slip.amount > 0 && slip.block_id + genesis_period <= latest_block_id)
     }
 
     pub fn validate_against_utxoset(&self, utxoset: &UtxoSet) -> bool {
